@@ -41,7 +41,7 @@ class CoreHarness(Harness):
                  read_time=4, write_time=4, cl=2, cwl=None, RL=2, WL=0, K=2, window=0,
                  watch=None, banks=(0, 1), rows=(0, 1), cols=(0,), wes=None, queue_check=True, timing_mon=False,
                  refresh_mon=False, drivers=None, tzqcs=None, zqcs_period=None, rdphase=None, wrphase=None,
-                 req=None, settle=14, wr_only=False, zq_mon=False)
+                 req=None, settle=14, wr_only=False, zq_mon=False, rd_only=False)
         d.update(cfg); self.cfg = d
         for k, v in d.items(): setattr(self, k, v)
         nph = self.nphases
@@ -120,7 +120,7 @@ class CoreHarness(Harness):
         self.full_we = (1 << self.nlanes) - 1
         wes = self.wes if self.wes is not None else ([self.full_we, 1 << self.wlane, self.full_we & ~(1 << self.wlane)] if self.nlanes > 1 else [1])
         alpha = [None] + ([] if self.wr_only else [("R", ad) for ad in self.addrs])
-        for ad in self.addrs:
+        for ad in ([] if self.rd_only else self.addrs):
             if self.watch is not None and ad == self.waddr:
                 alpha += [("W", ad, t, we) for t in (0, 1) for we in wes]
             else:
